@@ -411,11 +411,13 @@ impl<'a> Nh<'a> {
                     if !present && full && !remove {
                         continue;
                     }
+                    let mut occ_addrs: [usize; 3] = [0; 3];
                     win!(self, "entry.occupied|vacant", {
                         match m.entry(k) {
                             Entry::Occupied(mut o) => {
-                                let _ = o.key();
-                                let _ = o.get();
+                                occ_addrs[0] = o.key() as *const K as usize;
+                                occ_addrs[1] = o.get() as *const V as usize;
+                                occ_addrs[2] = o.get_mut() as *mut V as usize;
                                 *o.get_mut() = val;
                                 if remove {
                                     let _ = o.remove_entry();
@@ -433,6 +435,10 @@ impl<'a> Nh<'a> {
                             }
                         }
                     });
+                    if occ_addrs[0] != 0 {
+                        // OccupiedEntry::key / get / get_mut hand out references to the stored key and value
+                        self.addr_list("OccupiedEntry::key|get|get_mut", &occ_addrs, &m);
+                    }
                     if remove {
                         model.retain(|e| e.0 != c);
                     } else {
